@@ -249,6 +249,16 @@ def check(a, pid, tier, work, t0):
         die("forbidden constructs in the Coq development: %s" % "; ".join(bad[:5]))
     obligations, discharged, axioms, tlog = check_theorems(pid, work) if coq_built else (theorems_of(pid), [], {}, coq_log)
 
+    coqchk = None
+    if tier == "thorough" and coq_built and not a.replay:
+        # independent re-check of the compiled theorems of this property (and all they depend on)
+        r = run(["timeout", "2400", "coqchk", "-silent", "-o", "-R", COQ, "Tab", "Tab.Props.%s" % pid], cwd=COQ)
+        m = re.search(r"\* Axioms:\s*(.*?)\n\s*\n", r.stdout, flags=re.S)
+        coqchk = {"exit": r.returncode, "axioms": (m.group(1).strip() if m else "?"),
+                  "type_in_type": "type-in-type: <none>" in r.stdout, "tail": r.stdout[-600:]}
+        if r.returncode != 0 or coqchk["axioms"] != "<none>":
+            discharged = []          # the independent checker does not accept the development as axiom-free
+            tlog = "coqchk: " + r.stdout[-1500:]
     ok, log, binp = build_harness(repo, work, pid in RACE_PROPS)
     if not ok:
         # the repository (or the harness against it) does not compile: nothing can be shown
@@ -440,8 +450,12 @@ def check(a, pid, tier, work, t0):
             "widened_search_cases": searched,
             "samples": samples,
             "known_findings_seen": {k: {"what": v[0], "cases": v[1]} for k, v in known_hits.items()},
+            "coqchk": coqchk if coqchk is not None else "thorough tier only",
         },
-        "assumptions": stats.get("assumptions", []),
+        "assumptions": (stats.get("assumptions") or []) + [
+            "the theorems are about a hand-written Gallina model; its agreement with the Go code is established only on the cases this run executed (correspondence_mismatches above)",
+            "user-supplied methods and callbacks are total and do what the harness's test doubles do (DESIGN.md section 13)",
+        ],
         "wall_s": round(wall, 2),
         "violations": len(violations),
     }
